@@ -15,7 +15,9 @@ RULE = ("queries: multisets of <=3 timestamps, sources: multisets of <=4 timesta
 PROVED = ("vfT_window: the index chosen for a query is NaN or lies in the source window of the same epoch; other epochs' entries untouched "
           "(all sizes, all modes, all ties); vfT_closest / vfT_after / vfT_before: each mode returns exactly the neighbour the property names (nearest; earliest at-or-after; "
           "latest at-or-before; NaN exactly when the epoch holds none), for sorted queries and samples of any length")
-NOT_PROVED = "_value_from glue (NaN / dtype handling, index mapping through the restricted arrays), interpolate: oracle + correspondence only"
+NOT_PROVED = ("_value_from glue (NaN / dtype handling, index mapping through the restricted arrays); the float evaluation of np.interp "
+              "(model over exact rationals, compared within 1e-9); duplicate source timestamps in interpolate (np.interp leaves them unspecified)")
+EXTRA_MODULES = ["C06Interp"]
 ASSUMPTIONS = ["both series sorted, ep canonical"]
 MODES = ["before", "closest", "after"]
 
@@ -100,6 +102,16 @@ def interp_case(ctx, qs, ss, st, en, sc):
     iv = lambda t: next((k for k, (s, e) in enumerate(zip(st, en)) if s <= t <= e), None)
     for variant in ("ep", "own-default", "own-explicit"):
         _interp_variant(ctx, inp, variant, a, b, ep, qs, ss, vals, st, en, sc, iv)
+    # the same call on the Lean model (np.interp over exact rationals, one epoch at a time)
+    if ctx.lean:
+        o = ctx.lean.run(["interp %s %s %s %s %s" % (enc(sorted(qs)), enc(ss), enc(vals), enc(st), enc(en))])[0]
+        r = b.interpolate(a, ep)
+        got = [(int(round(t * 1e9 / sc)), None if np.isnan(v) else float(v)) for t, v in zip(r.t, r.values)]
+        mod = [] if o == "-" else [(int(c.split(":")[0]), None if c.split(":")[1] == "nan" else float(Fraction(c.split(":")[1]))) for c in o.split(",")]
+        same = len(got) == len(mod) and all(g[0] == m[0] and ((g[1] is None) == (m[1] is None)) and (g[1] is None or abs(g[1] - m[1]) <= 1e-9)
+                                            for g, m in zip(got, mod))
+        if not same:
+            ctx.fail("corr", "interpolate != model interpolate (np.interp per epoch, exact rationals)", inp, impl=got, model=mod)
 
 
 def _interp_variant(ctx, inp, variant, a, b, ep, qs, ss, vals, st, en, sc, iv):
